@@ -328,7 +328,9 @@ func TestWorker(t *testing.T) {
 			fps[res.FP] = true
 		}
 		if len(sum.Samples) < job.Samples && (nt || n > 20) {
-			sum.Samples = append(sum.Samples, sampleOf(plan, res))
+			smp := sampleOf(plan, res).(map[string]any)
+			smp["first_events"] = eng.Excerpt(0, 30)
+			sum.Samples = append(sum.Samples, smp)
 		}
 		if job.Digest {
 			emit(outLine{T: "digest", I: idx, D: eng.Digest(res)})
